@@ -61,12 +61,14 @@ func init() {
 				for i := 0; i < n; i++ {
 					obj, err := cp.Dispense("p")
 					if err != nil {
-						x.Fail("S", "dispense %d of %d on a connection whose id counter stood at %d failed: %v", i+1, n, at, err)
+						// (like every "succeeds" verdict only without a timer deviation: the transport's own keep-alive timers, fired
+						// early, legitimately end the connection)
+						failT(x, "dispense %d of %d on a connection whose id counter stood at %d failed: %v", i+1, n, at, err)
 						continue
 					}
 					var tag string
 					if err := obj.(*rpc.Client).Call("Plugin.Tag", 0, &tag); err != nil {
-						x.Fail("S", "call on the object of dispense %d failed: %v", i+1, err)
+						failT(x, "call on the object of dispense %d failed: %v", i+1, err)
 					} else if want := fmt.Sprintf("obj%d", i+2); tag != want {
 						x.Fail("S", "dispense %d reached server object %q, the object created for it is %q", i+1, tag, want)
 					}
@@ -93,8 +95,10 @@ func init() {
 		},
 		Instances: func(tier string) []explore.Params {
 			var out []explore.Params
-			for _, at := range []uint64{math.MaxUint32 - 2, math.MaxUint32 - 1, math.MaxUint32, math.MaxInt32 - 1, 254, 65534} {
-				out = append(out, explore.Params{"at": fmt.Sprint(at), "n": "4"})
+			// (the dispense that hands the broker to the harness used id 1: the sequences stop at id 0, an id is not used twice
+			// within moments — a real counter comes back to a number after 2^32 reservations)
+			for _, c := range [][2]uint64{{math.MaxUint32 - 3, 4}, {math.MaxUint32 - 2, 3}, {math.MaxUint32 - 1, 2}, {math.MaxUint32, 1}, {math.MaxInt32 - 1, 4}, {254, 4}, {65534, 4}} {
+				out = append(out, explore.Params{"at": fmt.Sprint(c[0]), "n": fmt.Sprint(c[1])})
 			}
 			return out
 		},
